@@ -116,6 +116,21 @@ add('C20', 'Gallina model of support.bind_callsig / sort_callsigs / make_up_call
     'round trip proved only for the bounded universe stated in the theorem (token level; the regular expression, str.split and the compiler are tied by the differential run); signatures with positional-only parameters are excluded from the modifiers spellings as in the property.',
     'Coq proof over a Gallina model + in-Coq evaluation correspondence + differential execution against CPython')
 
+add('C18', 'Gallina model of the modifier stacking algebra (name sets, _merge_other, annotate), of the descriptor cache as a state machine (get / call / retrieve / redecorate / drop) and of an abstract heap with strong and weak '
+    'edges (Model/Cache.v); 11 theorems in Props/C18.v for all histories (order independence via Permutation, annotate updates, binding to the right instance, refinement to the cache-less spec under the stated premise, '
+    'reclamation for non-caching descriptors) with vm_compute refutation witnesses for the two known findings; ~9k modifier permutations and ~23k histories (all of length <= 4) run on the real code with weak references and gc.collect(), '
+    'compared with the model (evaluated inside Coq).',
+    'the model\'s reachability is an abstraction of CPython\'s garbage collector; order independence for the start=/end=/auto forms is differential only. Known findings C18:cache-leak, C18:stale-cache, C18:posoargs-self-rebind listed in known_findings.json.',
+    'Coq proof over a Gallina state-machine / heap model + in-Coq evaluation correspondence + history execution')
+
+add('C17', 'Gallina small-step model, one transition per source line, of the delete/restore window of cleanup_functools_wrapper / autoforwards_function (machine W) and of the as_forged recursion guard (machine G) '
+    '(Model/Sched.v); Props/C17.v: C17_no_loss for ANY number of threads and ANY schedule by an inductive invariant (holders + present = present initially), sequential answers whenever no window is open, '
+    'refutation witnesses for the two known races, exhaustive enumeration inside Coq of all 2- and 3-thread plans with <= 2 preemptions (bound in the statements) classifying every violating plan as a window overlap / guard hit; '
+    'a deterministic line-level scheduler (settrace + per-thread semaphores) replays ~47k plans on the real code and compares every thread\'s answer and the final attributes with the model; randomized stress with a minimal switch interval.',
+    'the model is line-exact: any edit of the modelled functions shows up as model disagreement (no-failing-input-found) until the model is re-synchronised (procedure in notes/C17.md); preemption inside C code and the GIL\'s true granularity '
+    'cannot be exhibited by the model (covered by the stress part only). Known findings C17:wrapped-window, C17:guard-race listed in known_findings.json.',
+    'Coq proof (inductive invariant) + exhaustive bounded enumeration inside Coq + deterministic schedule replay on the real code', category='proof')
+
 
 def main():
     props = [json.loads(l)['id'] for l in open(os.path.join(VERIF, 'properties.jsonl'))]
